@@ -388,7 +388,10 @@ PROPS = {
                 "accounts in map order), every answer must stay within the limit, be per account a gap-free prefix of the pooled "
                 "chain, and take a contract's batch whole or not at all; the pool stream additionally asks GetPatch for every block "
                 "the sequence ever offered after every operation: it answers exactly for the blocks of the uncommitted chain "
-                "(a displaced, rolled back, refused or confirmed block is not in the pool)" + VDB_MEM_RULE + "; pool-node stream "
+                "(a displaced, rolled back, refused or confirmed block is not in the pool); a pooled receive with 1-3 descendants "
+                "displaced by a force-inserted competitor must leave the competitor alone in the pool and no patch for the displaced "
+                "receive (that its descendant blocks still answer GetPatch / GetAccountStore on the current tree is counted in the "
+                "stats as batch-displaced-descendant-still-answers, not judged)" + VDB_MEM_RULE + "; pool-node stream "
                 "(monitors only): per history a real producing node builds a trunk and three branches forking at one momentum (X "
                 "confirming [p, p2] of one account in one momentum, Y confirming the competitors [q, q2], Z confirming p alone and p2 "
                 "one momentum later; each longer than the one before; generated traffic incl. contract calls everywhere) - every "
